@@ -304,14 +304,43 @@ def rule_hashwrite(F, R):
         Sh = sem.Sem(X, hf)
         tws = [x for x in Sh.sites() if x.node.get("k") == "Call" and norm(x.node.get("callee", "")) == "serde_json::ser::to_writer"]
         tw = [x.node for x in tws]
-        w_arg = Sh.resolve(tw[0]["args"][0], tws[0].frame).node if tw else {}
-        ok = len(tw) == 1 and any(norm(c.get("callee", "")) == "HasherWrite" for c in exprs(w_arg, "Call")) and \
+
+        def owner(node, frame, limit=12):
+            """the local that owns the hasher an expression denotes: through &mut, one-field wrappers, fields, method
+            receivers, helper arguments and plain re-bindings"""
+            while limit > 0:
+                limit -= 1
+                n = sem.peel(node)
+                k = n.get("k")
+                if k == "Call" and str(n.get("callee_kind", "")).startswith("Ctor") and len(n.get("args", [])) == 1:
+                    node = n["args"][0]
+                elif k in ("Field", "Index", "Cast"):
+                    node = n["e"]
+                elif k == "MethodCall":
+                    node = n["recv"]
+                elif k == "Unary" and n.get("op") == "Deref":
+                    node = n["e"]
+                else:
+                    b_ = Sh.lookup(n, frame)
+                    if b_ is None:
+                        return None
+                    e_ = sem.peel(b_.expr) if b_.expr is not None else None
+                    if e_ is not None and (b_.kind == "arg" or (not b_.assigns and (e_.get("k") == "Path" or (
+                            e_.get("k") == "Call" and str(e_.get("callee_kind", "")).startswith("Ctor") and len(e_.get("args", [])) == 1)))):
+                        node, frame = b_.expr, b_.frame
+                        continue
+                    return b_
+            return None
+        wb = owner(tw[0]["args"][0], tws[0].frame) if tw else None
+        ok = len(tw) == 1 and "HasherWrite<" in norm(tw[0]["args"][0].get("ty", "")) and wb is not None and \
             sem.param_index(Sh, tw[0]["args"][1], tws[0].frame) == 0
-        R.check(ok, rule, "wirefilter_get_filter_hash", "the hash is computed over the filter's JSON serialization", where=hf["span"])
-        wrapped = {local_name(p) for c in exprs(w_arg, "Call") if norm(c.get("callee", "")) == "HasherWrite" for p in exprs(c, "Path")} if tw else set()
-        wrapped.discard(None)
-        fin = [x.node for x in Sh.sites() if x.node.get("k") == "MethodCall" and x.node["m"] == "finish" and local_name(x.node["recv"]) in wrapped]
-        R.check(len(fin) == 1, rule, "wirefilter_get_filter_hash", "returns the hasher's digest", where=hf["span"])
+        R.check(ok, rule, "wirefilter_get_filter_hash", "the hash is computed over the filter's JSON serialization",
+                "writer type %s" % (norm(tw[0]["args"][0].get("ty", "")) if tw else None), hf["span"])
+        # the digest returned is that of the hasher the JSON was written to (read directly or through a private accessor)
+        fin = [x for x in Sh.sites() if x.node.get("k") == "MethodCall" and x.node["m"] == "finish" and
+               ("hash::Hasher::finish" in norm(x.node.get("callee", "")) or "hash::Hasher>::finish" in norm(x.node.get("resolved") or "")) and wb is not None and
+               owner(x.node["recv"], x.frame) is wb]
+        R.check(len(fin) == 1, rule, "wirefilter_get_filter_hash", "returns the hasher's digest", "%d finish() calls on the written hasher" % len(fin), hf["span"])
 
 
 def run(F, R, tier):
